@@ -1,9 +1,300 @@
 (* C09 — the same data in different column layouts parses to the same row.
-   Only property theorems here, each closed by [exact] and followed by Print Assumptions. *)
-From Coq Require Import List NArith Bool.
-From RPFT Require Import Base.Sexp Base.PyStr Gen.Tables Cell.Cell Row.Ty Row.Layout Row.RowParse Row.RowUnparse Row.FlowRow Row.RowFacts.
+   Only property theorems here, each closed by [exact] and followed by Print Assumptions.
+   Relations: Row/Encodes.v (EncNv = one cell, Enc = one slot, Encodes = a sheet row);
+   proofs: Row/ParseFold.v, Row/EncodesFacts.v, Row/FlowHeaderFacts.v, Row/EncodesExamples.v. *)
+From Coq Require Import String List NArith ZArith Bool.
+From RPFT Require Import Base.Sexp Base.PyStr Base.Result Base.ODict Gen.Tables Cell.Cell Row.Ty Row.Layout Row.RowParse
+  Row.RowUnparse Row.FlowRow Row.RowFacts Row.ParseFold Row.Encodes Row.EncodesFacts Row.FlowHeaderFacts
+  Row.HeaderFacts Row.StarFacts Row.ReorderFacts Row.EncodesExamples.
 Import ListNotations.
 
 Theorem C09_tables_ok : row_tables_ok = true.
 Proof. exact row_tables_ok_true. Qed.
 Print Assumptions C09_tables_ok.
+
+(* 1. every legal way of writing a row value (Encodes: per field spread / packed with either
+      separator / positional / key;value / mixed / `*` columns / short or long flow headers /
+      any interleaving of columns) parses to that value *)
+Theorem C09_encodes_parse : forall rm v cells, Encodes rm v cells -> parse_row rm cells = Ok v.
+Proof. exact encodes_parse. Qed.
+Print Assumptions C09_encodes_parse.
+
+(* 2. hence the parse depends on the data only *)
+Theorem C09_layout_independent : forall rm v c1 c2,
+  Encodes rm v c1 -> Encodes rm v c2 -> parse_row rm c1 = parse_row rm c2.
+Proof. exact layout_independent. Qed.
+Print Assumptions C09_layout_independent.
+
+Example C09_encodes_parse_nonvacuous :
+  Encodes rmR vR cells_spread /\ Encodes rmR vR cells_packed /\ Encodes rmR vR cells_star
+  /\ cells_spread <> cells_packed /\ cells_packed <> cells_star /\ cells_spread <> cells_star
+  /\ parse_row rmR cells_star = Ok vR.
+Proof. exact encodes_parse_nonvacuous. Qed.
+Print Assumptions C09_encodes_parse_nonvacuous.
+
+Example C09_flow_layout_independent_nonvacuous :
+  Encodes flow_row_model flow_value flow_short /\ Encodes flow_row_model flow_value flow_indexed
+  /\ flow_short <> flow_indexed /\ flow_parse flow_short = flow_parse flow_indexed.
+Proof. exact flow_layout_independent_nonvacuous. Qed.
+Print Assumptions C09_flow_layout_independent_nonvacuous.
+
+(* the two projection lemmas all permutation results rest on: the final content of a slot
+   depends only on the subsequence of columns that address it *)
+Theorem C09_fold_model : forall fields h2f f2h cols d,
+  heads_ok fields h2f cols ->
+  (forall k ct, field_ty fields k = Some ct ->
+                exists o, fold_slot ct (sub_key h2f k cols) (slot d k) = Ok o) ->
+  exists d',
+    foldM (fa (TModel fields h2f f2h)) cols (ODict d) = Ok (ODict d')
+    /\ (forall k ct, field_ty fields k = Some ct ->
+                     fold_slot ct (sub_key h2f k cols) (slot d k) = Ok (slot d' k))
+    /\ (forall k, sub_key h2f k cols = [] -> dget d' k = dget d k)
+    /\ (forall k, sub_key h2f k cols <> [] -> dget d' k = Some (slot d' k)).
+Proof. exact fold_model. Qed.
+Print Assumptions C09_fold_model.
+
+Theorem C09_fold_list : forall t cols, is_list_ty t = true -> forall l n,
+  idx_scan (length l) cols = Some n ->
+  (forall i, (i < n)%nat -> exists o, fold_slot (child_ty t) (sub_idx i cols) (nth i l ONone) = Ok o) ->
+  exists l',
+    foldM (fa t) cols (OList l) = Ok (OList l') /\ length l' = n
+    /\ (forall i, (i < n)%nat -> fold_slot (child_ty t) (sub_idx i cols) (nth i l ONone) = Ok (nth i l' ONone)).
+Proof. exact fold_list. Qed.
+Print Assumptions C09_fold_list.
+
+Example C09_fold_model_nonvacuous :
+  heads_ok fxy [] cols_xy
+  /\ (forall k ct, field_ty fxy k = Some ct ->
+                   exists o, fold_slot ct (sub_key [] k cols_xy) (slot [] k) = Ok o)
+  /\ foldM (fa (TModel fxy [] [])) cols_xy (ODict []) = Ok (ODict [(S_ "y", OStr (S_ "baz")); (S_ "x", OStr (S_ "foo"))]).
+Proof. exact fold_model_nonvacuous. Qed.
+Print Assumptions C09_fold_model_nonvacuous.
+
+Example C09_fold_list_nonvacuous :
+  idx_scan (length (@nil out)) cols_12 = Some 2%nat
+  /\ (forall i, (i < 2)%nat -> exists o, fold_slot (child_ty (TList TStr)) (sub_idx i cols_12) (nth i (@nil out) ONone) = Ok o)
+  /\ foldM (fa (TList TStr)) cols_12 (OList []) = Ok (OList [OStr (S_ "c"); OStr (S_ "b")]).
+Proof. exact fold_list_nonvacuous. Qed.
+Print Assumptions C09_fold_list_nonvacuous.
+
+(* column order: any rearrangement of a row that keeps, for every top-level field, the relative order
+   of ITS columns (stated through the subsequences sub_key) writes the same value ... *)
+Theorem C09_encodes_reorder : forall rm fields h2f f2h v cells cells' data data',
+  rm_ty rm = TModel fields h2f f2h ->
+  rekey (rm_ctx rm) cells = Ok data -> Enc (rm_ty rm) None v (cols_of data) ->
+  rekey (rm_ctx rm) cells' = Ok data' ->
+  (forall k, sub_key h2f k (cols_of data') = sub_key h2f k (cols_of data)) ->
+  Encodes rm v cells'.
+Proof. exact encodes_reorder. Qed.
+Print Assumptions C09_encodes_reorder.
+
+(* ... in particular swapping two neighbouring columns that belong to different fields (the
+   generator of all such rearrangements), in a row without `*` columns and header context *)
+Theorem C09_swap_columns : forall rm fields h2f f2h v pre a b post,
+  rm_ty rm = TModel fields h2f f2h -> rm_ctx rm = None ->
+  NoDup (map fst (pre ++ a :: b :: post)) -> star_free (pre ++ a :: b :: post) = true ->
+  top_key h2f (fst a) <> top_key h2f (fst b) ->
+  Encodes rm v (pre ++ a :: b :: post) ->
+  Encodes rm v (pre ++ b :: a :: post)
+  /\ parse_row rm (pre ++ b :: a :: post) = parse_row rm (pre ++ a :: b :: post).
+Proof. exact swap_columns. Qed.
+Print Assumptions C09_swap_columns.
+
+Example C09_swap_columns_nonvacuous :
+  let a := (S_ "l.1", S_ "1") in let b := (S_ "es.1.a", S_ "p") in
+  let post := tl (tl cells_spread) in
+  cells_spread = [] ++ a :: b :: post
+  /\ NoDup (map fst ([] ++ a :: b :: post)) /\ star_free ([] ++ a :: b :: post) = true
+  /\ top_key [] (fst a) <> top_key [] (fst b)
+  /\ Encodes rmR vR ([] ++ a :: b :: post)
+  /\ parse_row rmR ([] ++ b :: a :: post) = Ok vR.
+Proof. exact swap_columns_nonvacuous. Qed.
+Print Assumptions C09_swap_columns_nonvacuous.
+
+(* 3. `*` columns.  The implied length of a `*` prefix is max(1, lengths of the list-valued sibling
+      `*` columns) ... *)
+Theorem C09_star_len_spec : forall cells p,
+  star_len (star_lengths cells) p = max_from 1 (star_lens_of p cells).
+Proof. exact star_len_spec. Qed.
+Print Assumptions C09_star_len_spec.
+
+(* ... in any column order *)
+Theorem C09_group_len_order : forall p cs cs',
+  clean p = true -> Permutation.Permutation cs cs' -> group_len p cs = group_len p cs'.
+Proof. exact group_len_order. Qed.
+Print Assumptions C09_group_len_order.
+
+Example C09_group_len_order_nonvacuous :
+  clean (S_ "p") = true /\ Permutation.Permutation gcells (rev gcells) /\ gcells <> rev gcells
+  /\ group_len (S_ "p") gcells = 3%nat /\ group_len (S_ "p") (rev gcells) = 3%nat.
+Proof. exact group_len_order_nonvacuous. Qed.
+Print Assumptions C09_group_len_order_nonvacuous.
+
+(* the columns a group of `p.*.g` cells expands to are a way of writing (Enc) the list of records
+   whose element i takes from every column its i-th value if it has one, the field default otherwise *)
+Theorem C09_star_columns_enc : forall sfields sh2f sf2h d scs vs,
+  NoDup (map f_name sfields) ->
+  NoDup (map (star_key sh2f) scs) ->
+  (forall sc, In sc scs -> field_ty sfields (star_key sh2f sc) <> None) ->
+  length vs = star_n scs -> (0 < star_n scs)%nat ->
+  (forall i, (i < star_n scs)%nat ->
+             exists fs, nth i vs (VStr []) = VModel fs /\ star_elem_spec sfields sh2f scs i fs) ->
+  Enc (TList (TModel sfields sh2f sf2h)) d (VList vs) (star_cols scs).
+Proof. exact star_columns_enc. Qed.
+Print Assumptions C09_star_columns_enc.
+
+Example C09_star_columns_enc_nonvacuous :
+  let scs := star_scs 3 gcells in
+  NoDup (map f_name gfields) /\ NoDup (map (star_key []) scs)
+  /\ (forall sc, In sc scs -> field_ty gfields (star_key [] sc) <> None)
+  /\ length gvs = star_n scs /\ (0 < star_n scs)%nat
+  /\ (forall i, (i < star_n scs)%nat -> exists fs, nth i gvs (VStr []) = VModel fs /\ star_elem_spec gfields [] scs i fs)
+  /\ Enc (TList (TModel gfields [] [])) None (VList gvs) (star_cols scs).
+Proof. exact star_columns_enc_nonvacuous. Qed.
+Print Assumptions C09_star_columns_enc_nonvacuous.
+
+(* a row of `p.*.g` cells parses to the row whose list field has group_len elements (max over the
+   sibling list-valued cells, at least 1), and a cell holding ONE value s gives EVERY element the
+   value s denotes *)
+Theorem C09_asterisk_broadcast : forall fields h2f f2h p cs sfields sh2f sf2h vs fs c s,
+  let scs := star_scs (group_len p cs) cs in
+  clean p = true -> Forall (fun c => clean (st_g c) = true) cs -> NoDup (map st_g cs) ->
+  NoDup (map f_name fields) ->
+  field_ty fields (remap_get h2f p) = Some (TList (TModel sfields sh2f sf2h)) ->
+  NoDup (map f_name sfields) -> NoDup (map (star_key sh2f) scs) ->
+  (forall sc, In sc scs -> field_ty sfields (star_key sh2f sc) <> None) ->
+  length vs = group_len p cs ->
+  (forall i, (i < group_len p cs)%nat ->
+             exists efs, nth i vs (VStr []) = VModel efs /\ star_elem_spec sfields sh2f scs i efs) ->
+  group_row_spec fields (remap_get h2f p) vs fs ->
+  In c cs -> cell_parse (st_txt c) = Str s ->
+  parse_row {| rm_ty := TModel fields h2f f2h; rm_ctx := None |} (star_data p cs) = Ok (VModel fs)
+  /\ group_len p cs = max_from 1 (list_lens cs)
+  /\ forall i f, (i < group_len p cs)%nat -> In f sfields -> f_name f = remap_get sh2f (st_g c) ->
+                 exists efs v, nth i vs (VStr []) = VModel efs /\ In (f_name f, v) efs /\ EncNv (f_ty f) v (Str s).
+Proof. exact asterisk_broadcast_row. Qed.
+Print Assumptions C09_asterisk_broadcast.
+
+(* longest list first, a shorter list later, then a single non-default value: three elements, all with t = k *)
+Example C09_asterisk_broadcast_nonvacuous :
+  star_data (S_ "p") gcells = [(S_ "p.*.a", S_ "x|y|z"); (S_ "p.*.b", S_ "u|v"); (S_ "p.*.t", S_ "k")]
+  /\ group_len (S_ "p") gcells = 3%nat
+  /\ parse_row {| rm_ty := TModel rgfields [] []; rm_ctx := None |} (star_data (S_ "p") gcells) = Ok (VModel gfs)
+  /\ forall i f, (i < group_len (S_ "p") gcells)%nat -> In f gfields -> f_name f = S_ "t" ->
+                 exists efs v, nth i gvs (VStr []) = VModel efs /\ In (f_name f, v) efs /\ EncNv (f_ty f) v (Str (S_ "k")).
+Proof. exact asterisk_broadcast_nonvacuous. Qed.
+Print Assumptions C09_asterisk_broadcast_nonvacuous.
+
+(* header syntax used above: list indices are decimal numerals; re-keying without context is the
+   identity on rows without duplicate headers *)
+Theorem C09_head_idx_print : forall i, head_idx (print_nat (S i)) = Some i.
+Proof. exact head_idx_print. Qed.
+Print Assumptions C09_head_idx_print.
+
+Theorem C09_rekey_none : forall cells, NoDup (map fst cells) -> rekey None cells = Ok cells.
+Proof. exact rekey_none. Qed.
+Print Assumptions C09_rekey_none.
+
+(* 4. short and long flow headers.  Domain of the finite proof: every entry of the regenerated
+      tables cx_basic (short -> long) and cx_sw_table (row type -> main argument field). *)
+Theorem C09_short_long_tables_ok : short_long_ok = true.
+Proof. exact short_long_ok_true. Qed.
+Print Assumptions C09_short_long_tables_ok.
+
+Theorem C09_short_long_headers : forall cells short long,
+  oget str_eqb (cx_basic flow_cx) short = Some long ->
+  ctx_h2f flow_ctx cells short = Ok long /\ ctx_h2f flow_ctx cells long = Ok long.
+Proof. exact short_long_headers. Qed.
+Print Assumptions C09_short_long_headers.
+
+Theorem C09_message_text_header : forall cells rt f,
+  oget str_eqb cells (cx_sw_column flow_cx) = Some rt ->
+  oget str_eqb (cx_sw_table flow_cx) rt = Some f ->
+  ctx_h2f flow_ctx cells (cx_sw_header flow_cx) = Ok f /\ ctx_h2f flow_ctx cells f = Ok f.
+Proof. exact message_text_header. Qed.
+Print Assumptions C09_message_text_header.
+
+(* the short headers the property names re-key like the long forms their names say *)
+Theorem C09_named_short_headers : forall short long, In (short, long) named_short_headers ->
+  forall cells, ctx_h2f flow_ctx cells short = Ok long /\ ctx_h2f flow_ctx cells long = Ok long.
+Proof. exact named_short_headers_ok. Qed.
+Print Assumptions C09_named_short_headers.
+
+(* rows that differ only in the short/long spelling of their headers parse identically —
+   for every row, well-formed or not *)
+Theorem C09_short_long_layouts : forall cells cells',
+  same_row (oget str_eqb cells (cx_sw_column flow_cx)) cells cells' ->
+  flow_parse cells = flow_parse cells'.
+Proof. exact short_long_layouts. Qed.
+Print Assumptions C09_short_long_layouts.
+
+Example C09_short_long_nonvacuous :
+  same_row (oget str_eqb flow_short (cx_sw_column flow_cx)) flow_short flow_long
+  /\ same_row (oget str_eqb flow_short (cx_sw_column flow_cx)) flow_short flow_mixed
+  /\ flow_short <> flow_long
+  /\ is_ok (flow_parse flow_short) = true
+  /\ flow_parse flow_short = flow_parse flow_long.
+Proof. exact short_long_nonvacuous. Qed.
+Print Assumptions C09_short_long_nonvacuous.
+
+Example C09_short_long_headers_nonvacuous :
+  oget str_eqb (cx_basic flow_cx) (S_ "condition_var") = Some (S_ "edges.*.condition.variable")
+  /\ oget str_eqb (cx_basic flow_cx) (S_ "from") = Some (S_ "edges.*.from_")
+  /\ oget str_eqb (cx_sw_table flow_cx) (S_ "send_message") = Some (S_ "mainarg_message_text")
+  /\ cx_sw_header flow_cx = S_ "message_text" /\ cx_sw_column flow_cx = S_ "type".
+Proof. exact short_long_headers_nonvacuous. Qed.
+Print Assumptions C09_short_long_headers_nonvacuous.
+
+(* 5. where layout DOES matter in the faithful model.
+   (a) a positional record of two entries whose first value is a field name is read as ONE
+       key;value pair: the unrestricted claim is refuted, the restricted one holds for all texts *)
+Theorem C09_positional_is_spread_refuted : ~ positional_is_spread_full.
+Proof. exact positional_is_spread_refuted. Qed.
+Print Assumptions C09_positional_is_spread_refuted.
+
+Theorem C09_positional_is_spread_partial : forall a b,
+  plain a = true -> plain b = true -> has_field fieldsAB a = false ->
+  parse_row rmAB (ab_positional a b) = parse_row rmAB (ab_spread a b).
+Proof. exact positional_is_spread_partial. Qed.
+Print Assumptions C09_positional_is_spread_partial.
+
+Example C09_positional_is_spread_nonvacuous :
+  plain (S_ "c") = true /\ plain (S_ "x") = true /\ has_field fieldsAB (S_ "c") = false
+  /\ parse_row rmAB (ab_positional (S_ "c") (S_ "x")) = Ok (rowAB (S_ "c") (S_ "x")).
+Proof. exact positional_is_spread_nonvacuous. Qed.
+Print Assumptions C09_positional_is_spread_nonvacuous.
+
+Example C09_positional_flip_witness :
+  parse_row rmAB (ab_spread (S_ "b") (S_ "x")) = Ok (rowAB (S_ "b") (S_ "x"))
+  /\ parse_row rmAB (ab_positional (S_ "b") (S_ "x")) = Ok (rowAB [] (S_ "x")).
+Proof. exact positional_flip_witness. Qed.
+Print Assumptions C09_positional_flip_witness.
+
+(* (b) the same flip for one entry of a longer positional record *)
+Example C09_positional_entry_flip_witness :
+  parse_row rmTN [(S_ "m.tags.1", S_ "n"); (S_ "m.tags.2", S_ "x"); (S_ "m.n", S_ "foo")] = Ok (rowTN [S_ "n"; S_ "x"] (S_ "foo"))
+  /\ parse_row rmTN [(S_ "m", S_ "n;x|foo")] = Ok (rowTN [] (S_ "foo"))
+  /\ parse_row rmTN [(S_ "m", S_ "q;x|foo")] = Ok (rowTN [S_ "q"; S_ "x"] (S_ "foo")).
+Proof. exact positional_entry_flip_witness. Qed.
+Print Assumptions C09_positional_entry_flip_witness.
+
+(* (b') and for the mixed layout: one positional entry + one key;value pair *)
+Example C09_positional_mixed_flip_witness :
+  parse_row rmAN [(S_ "m.a", S_ "n"); (S_ "m.n", S_ "5")] = Ok (VModel [(S_ "m", VModel [(S_ "a", VStr (S_ "n")); (S_ "n", VInt 5)])])
+  /\ parse_row rmAN [(S_ "m", S_ "n|n;5")] = Err EValue
+  /\ parse_row rmAN [(S_ "m", S_ "q|n;5")] = Ok (VModel [(S_ "m", VModel [(S_ "a", VStr (S_ "q")); (S_ "n", VInt 5)])]).
+Proof. exact positional_mixed_flip_witness. Qed.
+Print Assumptions C09_positional_mixed_flip_witness.
+
+(* (c) the short header `message_text` reads the RAW `type` cell: short = long only up to the
+       exact text of that cell, not up to the stripping the `type` field itself enjoys *)
+Theorem C09_short_header_any_padding_refuted : ~ short_header_any_padding_full.
+Proof. exact short_header_any_padding_refuted. Qed.
+Print Assumptions C09_short_header_any_padding_refuted.
+
+Example C09_padded_type_witness :
+  flow_parse flow_padded_short = Err EKey
+  /\ is_ok (flow_parse flow_padded_long) = true
+  /\ flow_parse flow_padded_long = flow_parse flow_unpadded_short.
+Proof. exact padded_type_witness. Qed.
+Print Assumptions C09_padded_type_witness.
